@@ -158,7 +158,7 @@ def _run(case, root, side):
                     execs.append({"task": e["task"], "cwd": e["cwd"], "cmd": e["argv"][2] if len(e["argv"]) > 2 else None,
                                   "argv0": e["argv"][:2], "exe": e["exe"], "env": e["env"], "out_exists": e["out_exists"],
                                   "listing": e["listing"]})
-        if res.get("uncaught") or res["status"] == "deadlock":
+        if res.get("uncaught") or res["status"] in ("deadlock", "livelock"):
             v.append(("run_broke", "invocation %d: %s" % (r, res.get("uncaught_tb", res["status"])[-300:])))
             break
         by_task = {}
